@@ -40,6 +40,16 @@ pipeline run_str, extracted) must produce the identical event line (spans includ
 Self-check of the presenters: an independent reference reader (ref_read_quoted / ref_read_plain, a direct rendering of
 the folding rules on the physical lines of the scalar) must recover the target from every presentation; a disagreement
 is a machinery failure (tie break), never blamed on the implementation.
+
+Recorded findings (known_findings_c04.jsonl; a case of a recorded class must fail exactly the recorded way, otherwise it
+is reported like any other case):
+  plain-indented-document-marker        a line of a plain scalar that starts, after indentation, with `---` / `...` +
+                                        blank/break/end: saphyr ends the scalar there and rejects the document
+                                        (`a<LF> ---`, `k:<LF>  --- a`); c-forbidden only applies in column 0.
+  plain-flow-dash-before-flow-indicator in a flow collection, a plain scalar whose last word is a lone `-` directly
+                                        followed by `,` `]` `}` is rejected (`[a -]`); `-` is only restricted as the
+                                        FIRST character of a plain scalar.
+Cases are generated and run in batches of BATCH documents (the thorough tier has about 3 million).
 """
 import json
 import os
@@ -630,6 +640,21 @@ def project(line):
     return out, fin
 
 
+def coq_spec_tables():
+    """the escape tables of coq/Spec/FlowFold.v (the ones the theorems are stated with), read from the source"""
+    src = open(os.path.join(core.COQ, "Spec", "FlowFold.v"), encoding="utf-8").read()
+    src = re.sub(r"\(\*.*?\*\)", "", src, flags=re.S)
+    m = re.search(r"Definition spec_named_escapes[^=]*:=\s*\[(.*?)\]\.", src, re.S)
+    named = sorted((int(a), int(b)) for a, b in re.findall(r"\((\d+),\s*(\d+)\)", m.group(1))) if m else None
+    m = re.search(r"Definition spec_numeric_escapes[^=]*:=\s*\[(.*?)\]\.", src, re.S)
+    numeric = sorted((int(a), int(b)) for a, b in re.findall(r"\((\d+),\s*(\d+)%nat\)", m.group(1))) if m else None
+    return named, numeric
+
+
+def presenter_tables():
+    return (sorted((ord(x), o) for o, xs in NAMED.items() for x in xs), sorted([(ord("x"), 2), (ord("u"), 4), (ord("U"), 8)]))
+
+
 def load_known():
     out = []
     if os.path.exists(KNOWN_FILE):
@@ -824,6 +849,10 @@ def check_C04(tier, seed):
     rng = gen.rng_for(seed, PID)
     ta = Tally()
     known = load_known()
+    # the presenter's escape table is the table of the Coq specification (which T1 proves equal to the generated one)
+    if coq_spec_tables() != presenter_tables():
+        res.add_tie_break("the presenter's escape tables differ from coq/Spec/FlowFold.v (spec_named_escapes / spec_numeric_escapes)",
+                          coq=coq_spec_tables(), python=presenter_tables())
     seen, docs_seen, dist = set(), set(), {}
     batch = []
     ntargets = 0
@@ -856,6 +885,12 @@ def check_C04(tier, seed):
         res.known.append("%s: %d runs (cases x back-ends) of the recorded class fail the recorded way; e.g. %r -> %s"
                          % (cls, n, ta.kn_example[cls][0], ta.kn_example[cls][1]))
     res.samples = ta.sample_pool
+    if tier == "thorough" and proof.get("ok"):
+        with core.Lock():
+            ok, out = core.coqchk(PID)
+        res.coverage["coqchk"] = "ok" if ok else "FAILED"
+        if not ok:
+            res.add_tie_break("coqchk rejects the compiled proofs", error=out[-1500:])
     res.notes.append("theorems: T1/T2 full (escape tables, hexadecimal, resolve_escape); T3 partial (all words, all words with "
                      "escapes, all single-line escape-free quoted scalars); multi-line folding and plain scalars are covered by the "
                      "differential run only; C04_plain_full is refuted (known finding plain-indented-document-marker)")
